@@ -10,6 +10,7 @@ pub mod c36;
 
 #[cfg(not(kani))]
 pub const REPLAY: &[(&str, fn(&mut vsrc::ReplaySrc))] = &[
+    ("c11_next_prefix_p2", |s| c11::next_prefix_contract::<_, 2>(s)),
     ("c11_next_prefix_p3", |s| c11::next_prefix_contract::<_, 3>(s)),
     ("c11_next_prefix_p4", |s| c11::next_prefix_contract::<_, 4>(s)),
     ("c36_coin_step", |s| c36::coin_step(s)),
